@@ -589,6 +589,10 @@ def r13_11(rep, prog):
     for f in prog.functions_all:
         if not f.file.startswith('src/') or 'analysis' in f.file:
             continue
+        # OUTPUT conversions only: the decoders and the de-mixing (`_out_`) kernels.  What the encoder does with float
+        # input beyond full scale is not part of the property (its relations are stated for audio the formats can hold).
+        if not (f.file.endswith('_decoder.c') or (f.file.endswith('mapping_matrix.c') and '_out_' in f.name)):
+            continue
         for c in f.calls():
             if sx.callee_name(c) not in ('float2int', 'lrintf', 'lrint'):
                 continue
